@@ -428,7 +428,7 @@ def unmarshal : V → Slice → R V
   | _, _ => .panic
 /-- NewNXActionResubmit: `a.Type = Type_Experimenter` (the MESSAGE type constant 4) overwrites the action type 0xffff -/
 def new (ip : Nat) : R V := do
-  let h ← NXActionHeader.setType Gen.openflow13.Type_Experimenter (NXActionHeader.newL Gen.openflow13.NXAST_RESUBMIT 16)
+  let h := NXActionHeader.newL Gen.openflow13.NXAST_RESUBMIT 16
   pure (.obj "NXActionResubmit" [h, V.u16 (n16 ip), .num 0, .bytes (zeros 3)])
 end NXActionResubmit
 
@@ -547,7 +547,7 @@ def unmarshal : V → Slice → R V
   | _, _ => .panic
 /-- NewNXActionDecTTLCntIDs(controllers, ids...): Length = 16 + 2*len(ids), NOT rounded up to a multiple of 8 -/
 def new (c : Nat) (ids : List V) : V :=
-  let l : UInt16 := 16 + n16 (2 * ids.length)
+  let l : UInt16 := 8 * ((16 + n16 (2 * ids.length) + 7) / 8)
   .obj "NXActionDecTTLCntIDs" [NXActionHeader.newL Gen.openflow13.NXAST_DEC_TTL_CNT_IDS l.toNat, V.u16 (n16 c), .bytes (zeros 4),
     .list (ids.map (fun i => V.u16 (n16 i.asNat)))]
 end NXActionDecTTLCntIDs
@@ -659,11 +659,9 @@ def marshalM (v : V) : R (Bytes × V) := do
   match v with
   | .obj "NXActionCTNAT" [h, pad, .num fl, .num rp, .bytes v4a, .bytes v4b, .bytes v6a, .bytes v6b, pmin, pmax] =>
     let hb ← NXActionHeader.bytes h
-    -- `if a.rangeProtoMin != nil { PutUint16(data[n:], *a.rangeProtoMax) }`: tests Min, dereferences Max
-    let pmaxPieces ← (match pmin, pmax with
-      | .nil, _ => .ok []
-      | _, .num y => .ok [pU16 y]
-      | _, _ => .panic : R (List Piece))
+    let pmaxPieces ← (match pmax with
+      | .num y => .ok [pU16 y]
+      | _ => .ok [] : R (List Piece))
     let ps := [pCopy hb, pSkip 2, pU16 fl, pU16 rp]
       ++ (if v4a ≠ [] then [pCopyAdv (actIpTo4 v4a) 4] else [])
       ++ (if v4b ≠ [] then [pCopyAdv (actIpTo4 v4b) 4] else [])
